@@ -46,6 +46,11 @@ func runCase(c *Case) (*outcome, error) {
 		return nil, err
 	}
 	defer cr.closeOrigins()
+	if c.Upstream {
+		if err := cr.startUpstream(); err != nil {
+			return nil, err
+		}
+	}
 	var err error
 	if c.Kind == "a" {
 		err = cr.startA()
@@ -278,11 +283,10 @@ func (c *connRun) finishedOrClosed() bool {
 
 // ---- evaluation ----
 
-// knownClass maps a failed clause to a recorded finding class, decided from the case and history.
+// knownClass maps a failed clause to a recorded finding class, decided from the case and history. No class
+// of C11 is open: F41 (connect-established-while-closing) is repaired, so a CONNECT that is answered 200
+// and then closed without a usable tunnel is a violation like any other failed clause.
 func knownClass(clause string) string {
-	if strings.HasPrefix(clause, "connect-response-while-closing-without-connection-close") {
-		return "connect-established-while-closing"
-	}
 	return ""
 }
 
@@ -417,10 +421,11 @@ func countK(evs []*Event, op string, k int) int {
 func Run(ctx *core.Ctx) {
 	ctx.SetRule("one case = one shutdown of one proxy instance (rig a: forwarder.HTTPProxy.Run cancelled; rig b: martian.Proxy Serve/Shutdown(ctx)/Close, " +
 		"also Close alone and Close during Shutdown's wait) with 1-32 scripted connections in the phases accept / TLS hello withheld / idle / partial head / " +
-		"request at a slow origin / response being written to a slow reader / CONNECT dial / tunnel, clients that vanish, requests and connections made after " +
+		"request at a slow origin / response being written to a slow reader / CONNECT dial (completing before or during the shutdown) / tunnel, clients that vanish, requests and connections made after " +
 		"closing is known; plain and TLS listeners; the shutdown placed when all scripts reached their phase (+0-60 ms) or racing their start (+0-10 ms); " +
 		"plus the shutdown-timeout matrix {0 = no limit, shorter than the in-flight work, long} x {slow origin, large body to a slow reader, open tunnel} on rigs a, b " +
-		"and on forwarder.HTTPServer (rig s); " +
+		"and on forwarder.HTTPServer (rig s); plus the late-dial family: CONNECT whose dial completes during the shutdown x rigs a, b x {direct, through an upstream proxy} x " +
+		"tunnel ended by {client, target, shutdown deadline} with echo traffic through the tunnel during the shutdown; " +
 		"non-trivial = at least one connection is in a phase other than idle when the shutdown is placed; distinct = distinct case scripts")
 	for _, raw := range core.LoadCorpus(ctx.Root, "C11") {
 		Replay(ctx, raw)
@@ -464,6 +469,11 @@ func Run(ctx *core.Ctx) {
 	for i := 0; i < ctx.N(6, 45); i++ {
 		jobs <- genServer(ctx.Rng.Sub(), i)
 	}
+	// the late-dial family (latedial.go): CONNECT whose dial completes during the shutdown, {a, b} x {direct,
+	// upstream proxy} x {ended by client, target, deadline}
+	for i := 0; i < ctx.N(24, 360); i++ {
+		jobs <- genLateDial(ctx.Rng.Sub(), i)
+	}
 	for i := 0; i < ctx.N(32, 400); i++ {
 		jobs <- &Case{Kind: "c", Trials: 250, MicroSeed: ctx.Rng.U64()}
 	}
@@ -482,6 +492,9 @@ func runAndEvaluate(ctx *core.Ctx, c *Case, ch *child) *child {
 	}
 	if c.Matrix != "" {
 		ctx.Count("matrix/" + c.Kind + "/" + c.Matrix + "/" + c.workLabel())
+	}
+	if c.Family != "" {
+		ctx.Count("family/" + c.Family + "/" + c.Kind + "/" + c.route())
 	}
 	nontrivial := false
 	for _, s := range c.Conns {
@@ -519,6 +532,7 @@ func runAndEvaluate(ctx *core.Ctx, c *Case, ch *child) *child {
 		ctx.CountN("late-dial/foreign-listener-on-reused-port", out.Foreign)
 	}
 	countPlacements(ctx, c, out)
+	countLateDials(ctx, c, out.History)
 	evaluate(ctx, c, out)
 	ctx.Sample(caseDoc{Case: c, Outcome: out})
 	return ch
